@@ -76,6 +76,16 @@ class CFG:
             a = self._block(st.body, [(t, "T")])
             b = self._block(st.orelse, [(t, "F")]) if st.orelse else [(t, "F")]
             return a + b
+        if isinstance(st, ast.For) and not st.orelse and isinstance(st.iter, ast.Call) and not st.iter.keywords \
+                and ast.unparse(st.iter.func) in ("itertools.count", "count") and len(st.iter.args) <= 2:
+            # for i in itertools.count(a): BODY never runs out: `while True: i = <next of the counter>; BODY`
+            start = ast.unparse(st.iter.args[0]) if st.iter.args else "0"
+            bind = ast.Assign(targets=[st.target], value=ast.parse(f"__next_of_count__({start})", mode="eval").body, lineno=st.lineno)
+            loop = ast.While(test=ast.Constant(value=True), body=[bind] + list(st.body), orelse=[])
+            for n_ in (bind, loop):
+                ast.copy_location(n_, st)
+                ast.fix_missing_locations(n_)
+            st = loop
         if isinstance(st, ast.While):
             h = self._new("whilehead", st)
             self._connect(frontier, h)
